@@ -81,7 +81,9 @@ class RowCollector:
         if self._array:
             for n, name in enumerate(self._columns):
                 data = getattr(self,name)
-                new = np.array(values[n],dtype=data.dtype)
+                # string columns have a fixed width that would truncate longer values
+                dtype = data.dtype.type if data.dtype.kind in 'SU' else data.dtype
+                new = np.array(values[n],dtype=dtype)
                 setattr(self,name, np.append(data,new) )
         else:
             for n, name in enumerate(self._columns):
